@@ -72,6 +72,12 @@ def decorate(m, n, rng):
     """Unique-id values plus extra variables of several dtypes and underscore names."""
     for j, nm in enumerate(m.names):
         m.__dict__['_' + nm][:] = np.arange(n, dtype=float) * 1.5 + 100 * (j + 1)
+    if rng.random() < 0.3:
+        # every variable a float, but of differing widths (and nothing of another kind): each column keeps its own dtype
+        m.add_variable('P32', np.arange(n) * 0.5 + 1, dtype=np.float32)
+        m.add_variable('H16', np.arange(n) * 0.25, dtype=np.float16)
+        m.add_variable('_p32', np.arange(n) * 2.0, dtype=np.float32)
+        return
     m.add_variable('K_int', np.arange(n) + 7, dtype=int)
     m.add_variable('B_bool', [i % 2 == 0 for i in range(n)], dtype=bool)
     m.add_variable('S_str', [f's{i}' for i in range(n)], dtype=str)
